@@ -1154,6 +1154,8 @@ def main(outfile):
     main_persist(os.path.join(os.path.dirname(outfile), 'TranslatedPersist.lean'))
     main_sim(os.path.join(os.path.dirname(outfile), 'TranslatedSim.lean'))
     main_ext(os.path.join(os.path.dirname(outfile), 'TranslatedExt.lean'))
+    import py2lean_sig                                           # separate module: CBlock.check_signature (C15)
+    py2lean_sig.main_sig(os.path.join(os.path.dirname(outfile), 'TranslatedSig.lean'), write_if_changed)
 
 
 if __name__ == '__main__':
